@@ -476,13 +476,16 @@ func (vr *variableResolver) resolve(ctx *ExecutionContext) (*Value, error) {
 
 				if fnArg != typeOfValuePtr {
 					// Function's argument is not a *pongo2.Value, then we have to check whether input argument is of the same type as the function's argument
+					// (a parameter of an interface type takes nil and every value that implements the interface)
+					argType := reflect.TypeOf(pv.Interface())
+					fits := fnArg == argType || (fnArg.Kind() == reflect.Interface && (argType == nil || argType.Implements(fnArg)))
 					if !isVariadic {
-						if fnArg != reflect.TypeOf(pv.Interface()) && fnArg.Kind() != reflect.Interface {
+						if !fits {
 							return nil, fmt.Errorf("function input argument %d of '%s' must be of type %s or *pongo2.Value (not %T)",
 								idx, vr.String(), fnArg.String(), pv.Interface())
 						}
 					} else {
-						if fnArg != reflect.TypeOf(pv.Interface()) && fnArg.Kind() != reflect.Interface {
+						if !fits {
 							return nil, fmt.Errorf("function variadic input argument of '%s' must be of type %s or *pongo2.Value (not %T)",
 								vr.String(), fnArg.String(), pv.Interface())
 						}
@@ -492,9 +495,8 @@ func (vr *variableResolver) resolve(ctx *ExecutionContext) (*Value, error) {
 						// a typed nil (e.g. a nil *T for a *T parameter): the zero value of the parameter's type
 						parameters = append(parameters, reflect.Zero(fnArg))
 					} else if pv.IsNil() {
-						// Workaround to present an interface nil as reflect.Value
-						var empty any = nil
-						parameters = append(parameters, reflect.ValueOf(&empty).Elem())
+						// an interface nil of the parameter's type
+						parameters = append(parameters, reflect.Zero(fnArg))
 					} else {
 						parameters = append(parameters, reflect.ValueOf(pv.Interface()))
 					}
